@@ -8,10 +8,10 @@
 #include "mcx/arena.h"
 using namespace Avoid; using namespace std;
 static mcx::Ctx ctx;
-enum { ADD_SHAPE0, ADD_SHAPE1, MOVE0, MOVE1, DEL0, DEL1, ADD_PIN0, ADD_JUNC, MOVE_JUNC, DEL_JUNC, ADD_CONN_PT, ADD_CONN_PIN, ADD_CONN_JUNC, ADD_CONN2, SET_END, DEL_CONN, SET_OPT, REG_HYPER, PROCESS, SET_CKPT, CLR_CKPT, RESIZE0, SPLIT, FIX_EXISTING, FIX_ROUTE, CLEAR_FIXED, INVALIDATE, ADD_CONN_SELF_PIN, ADD_CONN_SELF_JUNC, ADD_CONN_PIN_JUNC, MERGE_SPLIT, NOPS };
-static const char *NAMES[] = {"addShape0", "addShape1", "moveShape0", "moveShape1", "deleteShape0", "deleteShape1", "addPin(shape0)", "addJunction", "moveJunction", "deleteJunction", "addConn(point,point)", "addConn(shape0.pin,point)", "addConn(junction,point)", "addConn2(point,point)", "setDestEndpoint(conn)", "deleteConnector(conn)", "setRoutingOption/Parameter", "registerHyperedgeForRerouting(junction)", "processTransaction", "setRoutingCheckpoints", "clearRoutingCheckpoints", "resizeShape0", "splitAtSegment(1)", "setFixedExistingRoute", "setFixedRoute", "clearFixedRoute", "makePathInvalid", "addConn(shape0.pin,shape0.pin)", "addConn(junction,junction)", "addConn(shape0.pin,junction)", "removeJunctionAndMergeConnectors(split junction)"};
+enum { ADD_SHAPE0, ADD_SHAPE1, MOVE0, MOVE1, DEL0, DEL1, ADD_PIN0, ADD_JUNC, MOVE_JUNC, DEL_JUNC, ADD_CONN_PT, ADD_CONN_PIN, ADD_CONN_JUNC, ADD_CONN2, SET_END, DEL_CONN, SET_OPT, REG_HYPER, PROCESS, SET_CKPT, CLR_CKPT, RESIZE0, SPLIT, FIX_EXISTING, FIX_ROUTE, CLEAR_FIXED, INVALIDATE, ADD_CONN_SELF_PIN, ADD_CONN_SELF_JUNC, ADD_CONN_PIN_JUNC, MERGE_SPLIT, ADD_CLUSTER, MOVE_CLUSTER, DEL_CLUSTER, NOPS };
+static const char *NAMES[] = {"addShape0", "addShape1", "moveShape0", "moveShape1", "deleteShape0", "deleteShape1", "addPin(shape0)", "addJunction", "moveJunction", "deleteJunction", "addConn(point,point)", "addConn(shape0.pin,point)", "addConn(junction,point)", "addConn2(point,point)", "setDestEndpoint(conn)", "deleteConnector(conn)", "setRoutingOption/Parameter", "registerHyperedgeForRerouting(junction)", "processTransaction", "setRoutingCheckpoints", "clearRoutingCheckpoints", "resizeShape0", "splitAtSegment(1)", "setFixedExistingRoute", "setFixedRoute", "clearFixedRoute", "makePathInvalid", "addConn(shape0.pin,shape0.pin)", "addConn(junction,junction)", "addConn(shape0.pin,junction)", "removeJunctionAndMergeConnectors(split junction)", "addCluster(round shape0's place)", "cluster.setNewPoly", "deleteCluster"};
 struct World {
-    Router *r; ShapeRef *s[2]; JunctionRef *j; ConnRef *c, *c2; bool pin0, pendAdd[2], pendDel[2], jPendAdd, jPendDel, cOnJunc, cOnPin, cRouted = false, cFixed = false; int opt; JunctionRef *j2 = nullptr; ConnRef *c3 = nullptr;
+    Router *r; ShapeRef *s[2]; JunctionRef *j; ConnRef *c, *c2; bool pin0, pendAdd[2], pendDel[2], jPendAdd, jPendDel, cOnJunc, cOnPin, cRouted = false, cFixed = false; int opt; JunctionRef *j2 = nullptr; ConnRef *c3 = nullptr; ClusterRef *cl = nullptr;
     World(int mode, bool trans) { r = new Router(mode); r->setTransactionUse(trans); s[0] = s[1] = nullptr; j = nullptr; c = c2 = nullptr; pin0 = false; pendAdd[0] = pendAdd[1] = pendDel[0] = pendDel[1] = jPendAdd = jPendDel = cOnJunc = cOnPin = false; opt = 0; }
     bool tx() { return r->transactionUse(); }
     // false = the operation is not legal in this state (documented preconditions only)
@@ -44,6 +44,9 @@ struct World {
         case FIX_ROUTE: { if (!c) return false; PolyLine pl(3); pl.ps[0] = Point(0, 40); pl.ps[1] = Point(0, 110); pl.ps[2] = Point(120, 110); c->setFixedRoute(pl); cFixed = true; return true; }
         case CLEAR_FIXED: { if (!c || !cFixed) return false; c->clearFixedRoute(); cFixed = false; cRouted = false; return true; }
         case INVALIDATE: { if (!c) return false; c->makePathInvalid(); return true; }
+        case ADD_CLUSTER: { if (cl) return false; bool poly = r->validConnType() == ConnType_PolyLine; /* polyline: boundary points taken from shape vertices (viscluster.h: 'a convex hull consisting of points from the boundaries of shapes') */ Rectangle rect(poly ? Point(20, 20) : Point(10, 10), poly ? Point(40, 60) : Point(50, 70)); cl = new ClusterRef(r, rect); r->setRoutingParameter(clusterCrossingPenalty, 4000); return true; }   // the documented way: constructing it places it into the scene
+        case MOVE_CLUSTER: { if (!cl) return false; bool poly = r->validConnType() == ConnType_PolyLine; Rectangle rect(poly ? Point(20, 20) : Point(5, 10), poly ? Point(80, 60) : Point(95, 75)); cl->setNewPoly(rect); return true; }
+        case DEL_CLUSTER: { if (!cl) return false; r->deleteCluster(cl); cl = nullptr; return true; }
         case PROCESS: { r->processTransaction(); cRouted = (c != nullptr); for (int i = 0; i < 2; i++) { pendAdd[i] = false; if (pendDel[i]) { s[i] = nullptr; pendDel[i] = false; if (i == 0) { pin0 = false; cOnPin = false; } } } jPendAdd = false; if (jPendDel) { j = nullptr; jPendDel = false; cOnJunc = false; } return true; }
         }
         return false;
@@ -57,7 +60,7 @@ static long run_seq(const vector<int> &ops, int mode, bool trans, bool &legal, s
 }
 static void phase(int depth, int mode, bool trans, const vector<int> &subset = {}) {
     const int A = subset.empty() ? (int)NOPS : (int)subset.size();   // (an empty subset means the whole alphabet)
-    ctx.phase(mcx::fmt("Router histories depth=%d mode=%s transactions=%d over %d operations%s (+ ~Router)", depth, mode == OrthogonalRouting ? "orthogonal" : "polyline", trans, A, subset.empty() ? "" : subset.size() > 20 ? " (the first 27 operations)" : subset.size() == 9 ? " (split / merge subset)" : " (object life-cycle subset)"));
+    ctx.phase(mcx::fmt("Router histories depth=%d mode=%s transactions=%d over %d operations%s (+ ~Router)", depth, mode == OrthogonalRouting ? "orthogonal" : "polyline", trans, A, subset.empty() ? "" : subset.size() > 20 ? " (the first 27 operations)" : subset.size() == 9 && subset[1] == ADD_CLUSTER ? " (cluster subset)" : subset.size() == 9 ? " (split / merge subset)" : " (object life-cycle subset)"));
     vector<int> sel(depth, 0), idx(depth, 0);
     do {
         if (ctx.stopped()) break;
@@ -87,6 +90,8 @@ int main(int argc, char **argv) {
     vector<int> life = {ADD_SHAPE0, ADD_PIN0, ADD_JUNC, DEL0, DEL_JUNC, ADD_CONN_PT, ADD_CONN_PIN, ADD_CONN_JUNC, DEL_CONN, SET_END, MOVE_JUNC, PROCESS};
     vector<int> splitMerge = {ADD_CONN_PT, ADD_SHAPE0, PROCESS, SPLIT, MERGE_SPLIT, MOVE0, SET_END, DEL_CONN, INVALIDATE};
     for (int depth = 4; depth <= (T ? 7 : 6); depth++) for (int mode : {(int)PolyLineRouting, (int)OrthogonalRouting}) for (int trans = 1; trans >= 0; trans--) phase(depth, mode, trans, splitMerge);
+    vector<int> clusters = {ADD_SHAPE0, ADD_CLUSTER, MOVE_CLUSTER, DEL_CLUSTER, ADD_CONN_PT, ADD_CONN2, PROCESS, MOVE0, DEL0};
+    for (int depth = 2; depth <= (T ? 6 : 5); depth++) for (int mode : {(int)PolyLineRouting, (int)OrthogonalRouting}) for (int trans = 1; trans >= 0; trans--) phase(depth, mode, trans, clusters);
     vector<int> life15 = life; life15.push_back(ADD_CONN_SELF_PIN); life15.push_back(ADD_CONN_SELF_JUNC); life15.push_back(ADD_CONN_PIN_JUNC);
     for (int depth = 5; depth <= (T ? 7 : 6); depth++) for (int mode : {(int)PolyLineRouting, (int)OrthogonalRouting}) for (int trans = 1; trans >= 0; trans--) phase(depth, mode, trans, depth == (T ? 7 : 6) ? life : life15);
     return ctx.finish();
